@@ -175,3 +175,16 @@ TRAPS = [
     "C|/x", "/C|/x", "C:/x", "/C:/x", "\\\\C|\\x", "//C|/x", "///C|/x", "C|", "C|?q", "C|#f", "C|x", "CC|/x", "1|/x",
     "mailto:a@b", "mailto:a@b?subject=x y", "javascript:alert(1) ", "data:text/html,<a> b", "about:blank#x y", "a:b #c", "a:b ?c", "a:b  ",
 ]
+
+
+def lowbyte_alias(r, text):
+    """replace some ASCII characters by wide code points with the same low byte (U+01xx, U+10xx, U+1F4xx):
+    catches code that narrows a wide code unit before classifying it"""
+    out = []
+    for ch in text:
+        o = ord(ch)
+        if o < 0x80 and r.random() < 0.3:
+            out.append(r.choice([0x100, 0x400, 0x1000, 0xFF00, 0x1F400]) + o)
+        else:
+            out.append(o)
+    return out
